@@ -52,26 +52,45 @@ def kind_of(exc):
     return "other:" + type(exc).__name__
 
 
+# how a target names the project directory P and a file f in it (the process runs in P)
+SPELLINGS = [
+    lambda P, f: (P, f),                                  # absolute working directory
+    lambda P, f: (".", f),                                # the default working directory of a Target
+    lambda P, f: ("s", "../" + f),                        # relative sub-directory (templates, Workflow(working_dir="s"))
+    lambda P, f: (P + "/s", "./../" + f),                 # absolute sub-directory
+    lambda P, f: ("s/..", P + "/" + f),                   # absolute path from a relative directory
+]
+
+
 def build(scn, variant):
     from gwf.core import Graph, Target
+    from .. import definition
 
     rng = random.Random(variant)
     perm = defs.NAME_PERMS[variant % len(defs.NAME_PERMS)]
     perm = dict(perm, E="echo", G="golf")
     order = list(scn["T"])
     rng.shuffle(order)
-    targets = [
-        Target(
+    P = os.path.join(definition.real_root(), "P")
+    # a third of the scenarios spell everything alike (absolute), the others mix spellings per target
+    mixed = variant % 3 != 0
+    targets = []
+    for t in order:
+        sp = rng.choice(SPELLINGS) if mixed else SPELLINGS[0]
+        targets.append(Target(
             name=perm[t],
-            inputs=defs.shape(sorted(scn["in"][t]), rng.choice(defs.SHAPES)),
-            outputs=defs.shape(sorted(scn["out"][t]), rng.choice(defs.SHAPES)),
+            inputs=defs.shape([sp(P, f)[1] for f in sorted(scn["in"][t])], rng.choice(defs.SHAPES)),
+            outputs=defs.shape([sp(P, f)[1] for f in sorted(scn["out"][t])], rng.choice(defs.SHAPES)),
             options={},
-            working_dir="/p",
-        )
-        for t in order
-    ]
-    fs = defs.DictFS({"/p/" + f: (None if m < 0 else 1000.0) for f, m in scn["fs"].items()})
-    return Graph.from_targets({t.name: t for t in targets}, fs)
+            working_dir=sp(P, "")[0],
+        ))
+    fs = defs.DictFS({P + "/" + f: (None if m < 0 else 1000.0) for f, m in scn["fs"].items()})
+    old = os.getcwd()
+    os.chdir(P)
+    try:
+        return Graph.from_targets({t.name: t for t in targets}, fs)
+    finally:
+        os.chdir(old)
 
 
 class NoBackend:
@@ -175,7 +194,10 @@ def drive(item):
             from gwf.scheduling import get_status_map
 
             with time_limit(1):
-                get_status_map(g, defs.DictFS({"/p/" + f: (None if m < 0 else 1000.0) for f, m in scn["fs"].items()}), NoopSpecHashes(), NoBackend())
+                from .. import definition
+
+                P = os.path.join(definition.real_root(), "P")
+                get_status_map(g, defs.DictFS({P + "/" + f: (None if m < 0 else 1000.0) for f, m in scn["fs"].items()}), NoopSpecHashes(), NoBackend())
         except BaseException as exc:  # noqa: BLE001
             if type(exc).__name__ in ("GwfTimeout", "RecursionError", "MemoryError"):
                 obs["big"].append({"op": "status", "order": "small", "outcome": "other:" + type(exc).__name__})
